@@ -38,7 +38,7 @@ func (w *WorkloadResource) DeepCopy() *WorkloadResource {
 	for cpu, pieces := range w.CPUMap {
 		res.CPUMap[cpu] = pieces
 	}
-	for nodeID, nodeMemory := range res.NUMAMemory {
+	for nodeID, nodeMemory := range w.NUMAMemory {
 		res.NUMAMemory[nodeID] = nodeMemory
 	}
 
